@@ -310,7 +310,8 @@ def run(rep: vk.Report):
         nrow = r.randint(2, 4)
         xv = _VVr(r.choice(["x", "q", "v"]), r.randint(2, 4))
         nx = xv.size
-        fam = r.choice(["rows_common_rhs", "rows_common_rhs", "sums_of_views", "scaled_rows", "with_duplicates", "mixed_sense", "quadratic_forms"])
+        fam = r.choice(["rows_common_rhs", "rows_common_rhs", "sums_of_views", "scaled_rows", "with_duplicates", "mixed_sense", "quadratic_forms",
+                        "one_object_two_senses"])
         A = np.array([[float(r.choice([1, 2, -1, 3, 0.5])) + 0.25 * ((i + j) % 3) for j in range(nx)] for i in range(nrow)])
         rel = []          # (constraint, type, numpy fun, numpy jac)
         if fam in ("rows_common_rhs", "with_duplicates"):
@@ -329,6 +330,13 @@ def run(rep: vk.Report):
         elif fam == "scaled_rows":
             for i in range(nrow):
                 rel.append(((A[i] @ xv) * 2.0 >= -3.0, "ineq", (lambda x, i=i: 2.0 * (A[i] @ x) + 3.0), (lambda x, i=i: 2.0 * A[i])))
+        elif fam == "one_object_two_senses":
+            # ONE expression object held by constraints of different sense (a range written with the public Constraint class)
+            from optyx import Constraint as _Cn
+            g_ = A[0] @ xv - 1.0
+            for sense in r.sample(["<=", ">=", "=="], r.choice([2, 3])):
+                sg = -1.0 if sense == "<=" else 1.0
+                rel.append((_Cn(g_, sense), "eq" if sense == "==" else "ineq", (lambda x, sg=sg: sg * (A[0] @ x - 1.0)), (lambda x, sg=sg: sg * A[0])))
         elif fam == "mixed_sense":
             for i in range(nrow):
                 sense = ["<=", ">=", "=="][i % 3]
@@ -339,56 +347,68 @@ def run(rep: vk.Report):
             for i in range(nrow):
                 Qi = np.diag(np.abs(A[i]) + 1.0)
                 rel.append((xv.dot(Qi @ xv) <= 9.0, "ineq", (lambda x, Qi=Qi: 9.0 - x @ Qi @ x), (lambda x, Qi=Qi: -2.0 * (Qi @ x))))
-        P = Problem().minimize(xv.dot(xv))
-        if r.random() < 0.5:
-            P.subject_to([c_ for c_, *_ in rel])
-        else:
-            for c_, *_ in rel:
-                P.subject_to(c_)
-        with stubs.Seams(minimize_script=[lambda call: stubs.mres(x=call["x0"], fun=0.0)] * 2) as S, warnings.catch_warnings():
-            warnings.simplefilter("ignore")
-            try:
-                P.solve(method=r.choice(["SLSQP", "trust-constr"]))
-            except Exception:
-                continue
-        if not S.minimize_calls:
-            continue
-        dicts = [d_ for d_ in (S.minimize_calls[0]["constraints"] or ()) if isinstance(d_, dict)]
-        if not dicts:
-            continue          # trust-constr may receive constraint objects in another form: only dict hand-overs are compared here
-        order = [v.name for v in P.variables]
-        perm = [order.index(f"{xv.name}[{j}]") for j in range(nx)]
-        pts = [np.array([r.choice(common.NICE) for _ in range(nx)]) for _ in range(3)]
-        for ci, (c_, typ, fnp, jnp_) in enumerate(rel):
-            handed += 1
-            found = False
-            for d_ in dicts:
-                if d_.get("type") != typ:
-                    continue
-                ok = True
-                for x_ in pts:
-                    full = np.zeros(len(order)); full[perm] = x_
-                    with np.errstate(all="ignore"):
-                        try:
-                            fv = float(d_["fun"](full)); jv = np.asarray(d_["jac"](full), dtype=float).ravel()[perm]
-                        except Exception:
-                            ok = False; break
-                    want_f, want_j = float(fnp(x_)), np.asarray(jnp_(x_), dtype=float)
-                    if typ == "eq":
-                        ok = (abs(fv - want_f) <= 1e-9 * (1 + abs(want_f)) and np.allclose(jv, want_j, rtol=1e-9, atol=1e-9)) or \
-                             (abs(fv + want_f) <= 1e-9 * (1 + abs(want_f)) and np.allclose(jv, -want_j, rtol=1e-9, atol=1e-9))
-                    else:
-                        ok = abs(fv - want_f) <= 1e-9 * (1 + abs(want_f)) and np.allclose(jv, want_j, rtol=1e-9, atol=1e-9)
-                    if not ok:
+        def build(extra_obj, as_list):
+            Pb = Problem().minimize(xv.dot(xv) + extra_obj if extra_obj is not None else xv.dot(xv))
+            if as_list:
+                Pb.subject_to([c_ for c_, *_ in rel])
+            else:
+                for c_, *_ in rel:
+                    Pb.subject_to(c_)
+            return Pb
+        def handover_check(P, tag):
+            nonlocal handed, handed_bad
+            with stubs.Seams(minimize_script=[lambda call: stubs.mres(x=call["x0"], fun=0.0)] * 2) as S, warnings.catch_warnings():
+                warnings.simplefilter("ignore")
+                try:
+                    P.solve(method=r.choice(["SLSQP", "trust-constr"]))
+                except Exception:
+                    return
+            if not S.minimize_calls:
+                return
+            dicts = [d_ for d_ in (S.minimize_calls[0]["constraints"] or ()) if isinstance(d_, dict)]
+            if not dicts:
+                return          # trust-constr may receive constraint objects in another form: only dict hand-overs are compared here
+            order = [v.name for v in P.variables]
+            perm = [order.index(f"{xv.name}[{j}]") for j in range(nx)]
+            pts = [np.array([r.choice(common.NICE) for _ in range(nx)]) for _ in range(3)]
+            for ci, (c_, typ, fnp, jnp_) in enumerate(rel):
+                handed += 1
+                found = False
+                for d_ in dicts:
+                    if d_.get("type") != typ:
+                        continue
+                    ok = True
+                    for x_ in pts:
+                        full = np.zeros(len(order)); full[perm] = x_
+                        with np.errstate(all="ignore"):
+                            try:
+                                fv = float(d_["fun"](full)); jv = np.asarray(d_["jac"](full), dtype=float).ravel()[perm]
+                            except Exception:
+                                ok = False; break
+                        want_f, want_j = float(fnp(x_)), np.asarray(jnp_(x_), dtype=float)
+                        if typ == "eq":
+                            ok = (abs(fv - want_f) <= 1e-9 * (1 + abs(want_f)) and np.allclose(jv, want_j, rtol=1e-9, atol=1e-9)) or \
+                                 (abs(fv + want_f) <= 1e-9 * (1 + abs(want_f)) and np.allclose(jv, -want_j, rtol=1e-9, atol=1e-9))
+                        else:
+                            ok = abs(fv - want_f) <= 1e-9 * (1 + abs(want_f)) and np.allclose(jv, want_j, rtol=1e-9, atol=1e-9)
+                        if not ok:
+                            break
+                    if ok:
+                        found = True
                         break
-                if ok:
-                    found = True
-                    break
-            if not found:
-                handed_bad += 1
-                rep.violation({"kind": "handover", "obligation": "every written relation is represented among the constraint dicts handed to the solver (fun = +/-(lhs - rhs), jac its derivative)",
-                               "witness": {"family": fam, "vector": [xv.name, nx], "A": A.tolist(), "constraint_index": ci, "constraint": repr(c_)[:200],
-                                           "n_written": len(rel), "n_dicts": len(dicts), "probe_points": [p_.tolist() for p_ in pts]}}, concrete=True)
+                if not found:
+                    handed_bad += 1
+                    rep.violation({"kind": "handover", "obligation": "every written relation is represented among the constraint dicts handed to the solver (fun = +/-(lhs - rhs), jac its derivative)",
+                                   "witness": {"problem": tag, "family": fam, "vector": [xv.name, nx], "A": A.tolist(), "constraint_index": ci, "constraint": repr(c_)[:200],
+                                               "n_written": len(rel), "n_dicts": len(dicts), "probe_points": [p_.tolist() for p_ in pts]}}, concrete=True)
+        as_list = r.random() < 0.5
+        handover_check(build(None, as_list), "first problem")
+        # the SAME constraint objects in two more problems of one size whose other variable sorts before / after the vector: the
+        # relations sit at other positions of the solver's vector
+        from optyx import Variable as _Vh
+        fr, bk = _Vh("A_front"), _Vh("zz_back")
+        handover_check(build((fr - 1.0) ** 2, as_list), "second problem, same constraint objects, one more variable in FRONT")
+        handover_check(build((bk - 1.0) ** 2, not as_list), "third problem, same constraint objects, one more variable at the BACK")
     # ---- right-hand sides as users hold them (Python numbers, NumPy scalars of every width, 0-d arrays), probed at points whose
     # distance from the bound is far below single precision: the relation is evaluated in double precision whatever the rhs type
     from optyx import Variable as _Vr
